@@ -1,11 +1,11 @@
 #!/bin/bash
-# usage: tryrefactors.sh <name>   -- applies each /tmp/refac/<name>/r*.diff VIRTUALLY (overlay, /repo untouched) and
+# usage: tryrefactors.sh <name>   -- applies each /verif/refactors/<name>/r*.diff VIRTUALLY (overlay, /repo untouched) and
 # runs EVERY quick check; any VIOLATION here is a false alarm of the checker (the refactorings preserve behaviour).
 set -u
 N="$1"
 export GOFLAGS=-mod=mod GOPROXY=off GOSUMDB=off GOTOOLCHAIN=local GOWORK=off
 TMP=$(mktemp -d /tmp/verif-refac.XXXXXX); trap 'rm -rf "$TMP"' EXIT
-for d in /tmp/refac/$N/r*.diff; do
+for d in /verif/refactors/$N/r*.diff; do
   [ -s "$d" ] || continue
   b=$(basename $d .diff); ov="$TMP/ov-$b"; mkdir -p "$ov"
   for f in $(grep '^+++ b/' "$d" | sed 's|^+++ b/||'); do mkdir -p "$ov/$(dirname "$f")"; cp "/repo/$f" "$ov/$f" 2>/dev/null; done
